@@ -491,6 +491,94 @@ func runC15(r *Run) {
 	checkBlockedAddrs(r, "R7", "distribution")
 	r.Import("R4/C14.", []string{"R2"}, runC14)
 	r.Import("R5/C02.", []string{"R3"}, runC02)
+	r.Rule("R11", "PATH.multisend-rejects-every-blocked-output + SHAPE.staking-pools-named-by-constants: (a) the bank MsgMultiSend wrapper tests BlockedAddr for the address of every output in a loop of its own — each iteration passes the test, its true edge reaches only failure exits, and InputOutputCoins is reachable only after the loop; (b) wherever Haqq code names a staking pool account to the bank keeper (SendCoinsFromModuleToModule, UndelegateCoinsFromModuleToAccount, … in upgrade handlers) the module name is a constant at that call site, not a value chosen at run time from the validator's status: tokens of Unbonding validators sit in the not-bonded pool, and a pool picked by IsUnbonded()/IsBonded() shortcuts debits the wrong one")
+	if ms, ok := P.FnOK("(x/bank/keeper.msgServer).MultiSend"); ok {
+		okLoop := false
+		var wit []string
+		for _, h := range ms.Blocks {
+			if !isLoopHeader(h) {
+				continue
+			}
+			body := loopBody(h)
+			overOutputs := false
+			for b := range body {
+				for _, in := range b.Instrs {
+					if ia, ok := in.(*ssa.IndexAddr); ok && backSlice(ia.X).HasField("MsgMultiSend", "Outputs") {
+						overOutputs = true
+					}
+				}
+			}
+			if !overOutputs {
+				continue
+			}
+			isBlk := isCallMatching(func(ci CallInfo) bool {
+				return ci.Name == "BlockedAddr" && backSlice(ci.Instr.Common().Args...).HasField("Output", "Address")
+			})
+			skip := false
+			for _, sc := range h.Succs {
+				if body[sc] && sc != h {
+					if w := (PathQuery{Fn: ms, StartBlock: sc, Block: isBlk, Target: func(in ssa.Instruction) bool { return in == h.Instrs[0] }}).Search(); w != nil {
+						skip = true
+						wit = P.witness(w)
+					}
+				}
+			}
+			trueEdges := boolCallEdges(ms, "BlockedAddr")
+			failOK := len(trueEdges) > 0
+			for _, e := range trueEdges {
+				if w := (PathQuery{Fn: ms, StartBlock: e.From.Succs[e.Succ], Target: isSuccessExit}).Search(); w != nil {
+					failOK = false
+					wit = P.witness(w)
+				}
+				if w := (PathQuery{Fn: ms, StartBlock: e.From.Succs[e.Succ], Target: func(in ssa.Instruction) bool { return in == h.Instrs[0] }}).Search(); w != nil {
+					failOK = false
+				}
+			}
+			// the transfer only after the loop: not reachable from inside the body without passing the header's exit
+			isIO := isCallMatching(func(ci CallInfo) bool { return ci.Name == "InputOutputCoins" })
+			pre := PathQuery{Fn: ms, Block: func(in ssa.Instruction) bool { return in == h.Instrs[0] }, Target: isIO}.Search()
+			okLoop = !skip && failOK && pre == nil
+		}
+		r.Check(okLoop, "R11", fnID(ms)+"#every-output-tested", P.Pos(fnPos(ms)), "loop over msg.Outputs: BlockedAddr on every output, blocked ⇒ failure, transfer after the loop",
+			"the bank MsgMultiSend wrapper does not test every output address against the blocked addresses in a loop of its own (a positional shortcut, an index test that misses position 0, or a test that does not fail the message): a module account can be credited by a plain multi-send, and its bookkeeping no longer matches its balance", wit...)
+	} else {
+		r.Bad("R11", "anchor/x/bank msgServer.MultiSend", "", "not found")
+	}
+	{
+		pools := map[string]bool{"bonded_tokens_pool": true, "not_bonded_tokens_pool": true}
+		nPool := 0
+		for _, fn := range P.Funcs {
+			if !isHaqqPath(fnPkgPath(fn)) || isTestSupport(P, fn) || fn.Synthetic != "" {
+				continue
+			}
+			eachCall(fn, func(ci CallInfo) {
+				if !(strings.HasPrefix(ci.Name, "SendCoinsFromModule") || strings.HasPrefix(ci.Name, "UndelegateCoinsFromModule") || strings.HasPrefix(ci.Name, "DelegateCoinsFromAccountToModule") || ci.Name == "SendCoinsFromAccountToModule") {
+					return
+				}
+				for _, a := range ci.Instr.Common().Args {
+					bt, ok := a.Type().Underlying().(*types.Basic)
+					if !ok || bt.Kind() != types.String {
+						continue
+					}
+					names := map[string]bool{}
+					backSlice(a).Any(func(v ssa.Value) bool {
+						if sv, ok := constString(v); ok && pools[sv] {
+							names[sv] = true
+						}
+						return false
+					})
+					if len(names) == 0 {
+						continue
+					}
+					nPool++
+					_, isConst := a.(*ssa.Const)
+					r.Check(isConst, "R11", fmt.Sprintf("%s#%s/pool-is-constant-%d", fnID(fn), ci.Name, nPool), P.Pos(instrPos(ci.Instr)), "staking pool named by a constant",
+						"the staking pool a bank move names is chosen at run time (one of "+strings.Join(sortedKeys(names), ", ")+" by some status test): for a validator in the state the test does not distinguish (Unbonding) the wrong pool is debited and the pools no longer equal the bonded / not-bonded token totals")
+				}
+			})
+		}
+		r.Floor("R11", "bank moves naming a staking pool in Haqq code", nPool, 3)
+	}
 	r.Rule("R10", "see C05 R2 and R6 (imported): an Ethereum transaction — a direct call of the staking or distribution precompile included — runs on a cache context that is written only when the execution succeeded, and an out-of-gas panic inside a precompile is a failed execution: the SDK's staking and distribution operations are not atomic on their own (pool transfer, then validator update, then reward-period bookkeeping), so a failed call that is not rolled back leaves exactly the half-done state the module invariants forbid")
 	r.Import("R10/C05.", []string{"R2", "R6"}, runC05)
 }
